@@ -134,6 +134,11 @@ func (p *H264Payloader) Payload(mtu uint16, payload []byte) [][]byte { //nolint:
 				out := make([]byte, len(stapANalu))
 				copy(out, stapANalu)
 				payloads = append(payloads, out)
+			} else {
+				// STAP-A does not fit the MTU, send the parameter sets on their own
+				single := &H264Payloader{DisableStapA: true}
+				payloads = append(payloads, single.Payload(mtu, p.spsNalu)...)
+				payloads = append(payloads, single.Payload(mtu, p.ppsNalu)...)
 			}
 
 			p.spsNalu = nil
